@@ -13,6 +13,7 @@ RULE = ("1-3 inputs plus a climatology file with its own coverage, missingness, 
         "metric, axis, climatology coverage class); non-trivial = the climatology removes >= 1 case and changes >= 1 value.")
 RULE += " " + '-obsrange (a range of OBSERVATION values, not anomalies) is in force in 40 % of the cases.'
 RULE += " " + 'Files with different observations in 40 % of the cases.'
+RULE += " " + 'Rounds 9-10: the extra-input relation also runs with -fcst <other column>.'
 ASSUMPTIONS = ["shift-invariant scores: mae, rmse, bias, stderror, ef, within (functions of fcst - obs per case only)"]
 REQUIRED_COUNTERS = ["cells_compared", "other_field_cells", "csv_tables", "metamorphic_pairs", "header_checks"]
 ANCHOR_FUNCS = ["Data.get_scores", "Data._get_score"]
